@@ -19,7 +19,7 @@ from props.base import corpus_for
 from props import c20_io
 
 ID = 'C20'
-LEAN_MODULES = ['PybtexModel.Props.C20', 'PybtexModel.Props.C20x']
+LEAN_MODULES = ['PybtexModel.Props.C20', 'PybtexModel.Props.C20x', 'PybtexModel.Props.C20y']
 THEOREMS = {
     'C20_command_shape': 'which lines are \\citation / \\bibstyle / \\bibdata / \\@input lines: the regular expression classifies every line as the specification does; a command line is `\\name{arg}tail` with arg ending at the LAST `}` of the line',
     'C20_comma_lists': 'comma lists expanded: str.split(",") as the code performs it is the unique list of comma-free parts that joins back to the argument',
@@ -42,6 +42,14 @@ THEOREMS = {
     'C20_open_unicode': 'pybtex.io.open_unicode as the reader uses it, for every file system (regular files, directories, absent names, paths through files) and every kpsewhich: an existing regular file is opened itself and kpsewhich is not consulted; otherwise a non-empty answer is opened instead; no or empty answer: the open fails; every failure is "unable to open <name AS WRITTEN>. <strerror of ENOENT/EISDIR/ENOTDIR>" [case analysis of the model of _open/_open_existing]',
     'C20_reports_located_io': 'C20_reports_located over the file system as pybtex.io presents it: every report of a closed document names the file as written and the line n>=1 of the regular file that was really read (the name itself, or the kpsewhich answer when the name is no regular file); that line stripped is the text shown and is the causing command',
     'C20_modes': 'report_error through the C16 model Errors.report where the code calls it: the reader in capture mode and in non-strict mode IS parse (all C20 theorems hold for both; channel = captured list resp. warnings printed, exit code 2 iff any); in strict mode a report is raised as it stands with nothing collected. NOT proved: that the error raised in strict mode is the first report of the capture reading (checked on every generated document) ["error_code 2 iff something was printed" is by definition of Aux.errorCode / Mode.errState, which recompute it from the channel; Errors.report\'s own error_code is not threaded through the parse; the content is parseG = parse by induction]',
+    'C20_threaded_refines': 'the reader with the globals of pybtex.errors threaded through it (Model/AuxFileErr.lean: every report_error is Errors.report of C16 on the state the previous call left; start in ANY module state s0, no hypothesis) returns or raises exactly what parseG does in the mode s0 amounts to, the channel being read back out of the error state (what captured_errors gained / the warnings printed). Theorem-level only: no driver op runs parseT against pybtex.errors',
+    'C20_threaded_exec': 'no hypothesis: module state and observations after the parse (returned or aborted) are Errors.execReports s0 (C16: report after report, each on the state the one before returned) of the channel of parseG; or s0 is strict, the first report_error call raised its argument e and ended the parse: state untouched, [raised e] the only observation, = execReports s0 [e]',
+    'C20_threaded_nonstrict': 'hypotheses: s0.captured = none, s0.strict = false (error_code arbitrary): every report of the capture reading parse was printed as a warning, in order, nothing else observed; strict / captured_errors untouched; error_code = 2 if anything was printed and unchanged otherwise; with s0.error_code = 0: error_code = 2 iff at least one report was printed (from Errors.report via execReports_nonstrict, not from Aux.errorCode)',
+    'C20_threaded_nonstrict_nonvacuous': 'demoFS from (strict off, error_code 0): four warnings, error_code 2; a clean document leaves error_code 0',
+    'C20_threaded_capture': 'hypothesis: s0.captured = some l0: after the parse captured_errors = l0 ++ the reports of parse in order, error_code and strict untouched, every observation is "collected", nothing printed, nothing raised',
+    'C20_threaded_capture_nonvacuous': 'demoFS inside a capture context holding one error, error_code 7: five captured afterwards, error_code still 7, view = parse',
+    'C20_threaded_strict': 'hypotheses: s0.captured = none, s0.strict = true: nothing printed, module state untouched, and either no report_error call was made (then the result is that of parseG strict, whose channel is empty) or the first report_error call raised its argument, which is the fatal error of the parse (one observation). NOT proved: that the raised error is the first report of the capture reading parse (checked on every generated document)',
+    'C20_threaded_strict_nonvacuous': 'demoFS from a strict state: the first of the four reports (u.aux line 1) is raised and is the head of the capture reading, state untouched; a clean document is read with no observation',
     'C20_make_bibliography': "[model wiring + C20_modes: unfolds Model/AuxFileIO.makeBibliography; tie = op auxio] all of Engine.make_bibliography, hypothesis: mode is not strict: unknown reader name fails before anything is read; otherwise it is makeBibliographyArgs (C20_engine_consumes) with THAT reader's suffix and the explicit style (also the empty one), output_filename = os.path.splitext(aux)[0], add_output_suffix = True",
     'C20_engine_consumes': 'Engine.make_bibliography hands format_from_files exactly the denotation: first \\bibdata names + reader suffix, first \\bibstyle (or the explicit style), the citations in reading order with repeats; a fatal problem of the document is raised unchanged',
 }
